@@ -9,7 +9,7 @@ checks = []
 na = []
 for p in props:
     pid = p["id"]
-    if pid in targets.TARGETS:
+    if pid in targets.TARGETS and pid in mm.CLAIMED:
         m = targets.META[pid]
         checks.append({
             "property_id": pid,
